@@ -281,5 +281,5 @@ Lemma limits_are_consensus :
   MAX_BLOCK_SIZE = 1000000 /\ MAX_BLOCK_WEIGHT = 4000000 /\ MAX_BLOCK_SIGOPS = 20000 /\
   WITNESS_COINBASE_SCRIPTPUBKEY_MAGIC = commit_magic /\
   map cp_max_money chains = [21000000 * 100000000; 21000000 * 100000000; 21000000 * 100000000; 21000000 * 100000000] /\
-  map cp_pow_limit chains = [2^224 - 1; 2^224 - 1; 2^224 - 1; 2^255 - 1].
+  map cp_pow_limit chains = [2^224 - 1; 2^224 - 1; 0x377ae * 2^216; 2^255 - 1].
 Proof. repeat split. Qed.
